@@ -40,6 +40,17 @@ def make_instances(ctx):
         cands = [(x, y) for x in ns for y in ns if x != y and y not in i["parents"][x]]
         x, y = rng.choice(cands)
         qs.append({"t": "do", "q": [y], "ev": {}, "virt": {}, "do": {x: rng.choice(i["states"][x])}})
+        # engine operations (BeliefPropagation) and seeded sampling calls (shared BayesianModelSampling engine)
+        blank = {"q": [a], "ev": {}, "virt": {}, "do": {}, "method": "", "size": 0, "seed": 0}
+        qs.append(dict(blank, t="calibrate"))
+        qs.append(dict(blank, t="max_calibrate"))
+        sev = ev_for([], 1)
+        qs.append(dict(blank, t="sample", method="forward", size=12, seed=rng.randrange(10 ** 6)))
+        qs.append(dict(blank, t="sample", method="lw", ev=sev, size=12, seed=rng.randrange(10 ** 6)))
+        qs.append(dict(blank, t="sample", method="rejection", ev=ev_for([], 1), size=6, seed=rng.randrange(10 ** 6)))
+        for q in qs:
+            for k2, v2 in blank.items():
+                q.setdefault(k2, v2 if k2 != "q" else q.get("q", [a]))
         i["questions"] = qs
     return insts
 
@@ -65,7 +76,8 @@ def run(ctx):
     ctx.sample({"kind": "history", "inst": hists[5]["inst"], "questions": [s["k"] for s in hists[5]["steps"]]})
     cap = 400 if ctx.thorough else 60           # histories per (instance, configuration)
     hseeds = list(range(4)) if ctx.thorough else [0, 1]
-    confs = [("ve", "str", "numpy"), ("bp", "str", "numpy"), ("ci", "str", "numpy"), ("ve", "int", "numpy"), ("ve", "tuple", "numpy"),
+    qinst = {i["id"]: i for i in insts}
+    confs = [("bms", "str", "numpy"), ("bms", "int", "numpy"), ("bms", "str", "torch"), ("ve", "str", "numpy"), ("bp", "str", "numpy"), ("ci", "str", "numpy"), ("ve", "int", "numpy"), ("ve", "tuple", "numpy"),
              ("bp", "int", "numpy"), ("ci", "int", "numpy"), ("ci", "tuple", "numpy"), ("bp", "tuple", "numpy"),
              ("ve", "str", "torch"), ("bp", "str", "torch"), ("ci", "str", "torch")]
     for be in ("numpy", "torch"):
@@ -75,6 +87,17 @@ def run(ctx):
                 rs = random.Random(ctx.seed * 31 + hs * 7 + j)
                 sel = []
                 for iid, hl in by.items():
+                    kinds = {k + 1: q["t"] for k, q in enumerate(qinst[iid]["questions"])}
+                    if eng == "bms":          # histories of sampling calls only
+                        hl = [h for h in hl if all(kinds[s["k"]] == "sample" for s in h["steps"])]
+                    else:
+                        hl = [h for h in hl if all(kinds[s["k"]] != "sample" for s in h["steps"])]
+                        if eng != "bp":
+                            hl = [h for h in hl if all(kinds[s["k"]] not in ("calibrate", "max_calibrate") for s in h["steps"])]
+                        else:             # half of the budget: histories in which an engine operation precedes a question
+                            pref = [h for h in hl if any(kinds[h["steps"][x]["k"]] in ("calibrate", "max_calibrate") and
+                                                         kinds[h["steps"][x + 1]["k"]] in ("query", "map") for x in range(len(h["steps"]) - 1))]
+                            sel += rs.sample(pref, min(cap // 2, len(pref)))
                     sel += rs.sample(hl, min(cap, len(hl)))
                 pl.append((hs, {"insts": insts, "hists": sel, "engine": eng, "var_kind": vk, "seed": ctx.seed * 100 + hs * 8 + j}))
         for res in run_workers(ctx, "c16", "replay_gen", pl, backend=be):
@@ -119,6 +142,8 @@ def _snapshot(model):
 def replay_gen(payload):
     import numpy as np
     from pgmpy.inference import BeliefPropagation, CausalInference, VariableElimination
+    from pgmpy.sampling import BayesianModelSampling
+    from pgmpy.factors.discrete import State
     from ..bnutil import Conc, build_bn, fval, make_virtual
     rng = random.Random(payload["seed"])
     hs = int(os.environ.get("PYTHONHASHSEED", "0"))
@@ -132,7 +157,7 @@ def replay_gen(payload):
         model = build_bn(inst, conc, rng)
         snap0 = _snapshot(model)
         try:
-            eng = {"ve": VariableElimination, "bp": BeliefPropagation, "ci": CausalInference}[engk](model)
+            eng = {"ve": VariableElimination, "bp": BeliefPropagation, "ci": CausalInference, "bms": BayesianModelSampling}[engk](model)
         except Exception as ex:  # noqa
             if engk == "bp" and "sepset" in repr(ex):
                 continue
@@ -150,6 +175,8 @@ def replay_gen(payload):
                 continue
             if engk != "ci" and q["t"] == "do":
                 continue
+            if (q["t"] == "sample") != (engk == "bms") or (q["t"] in ("calibrate", "max_calibrate") and engk != "bp"):
+                continue
             feat = {"engine": engk, "var_kind": vk, "qtype": q["t"], "virt": bool(virt)}
 
             def fail(clause, obs=None):
@@ -162,7 +189,34 @@ def replay_gen(payload):
             vl_before = [np.asarray(c.values if not hasattr(c.values, "detach") else c.values.detach().cpu().numpy()).copy() for c in vl] if vl else None
             qv = [conc.vn[v] for v in q["q"]]
             ncalls += 1
+            def sample_call(e):
+                evs = [State(conc.vn[v], conc.sn[v][s_]) for v, s_ in ev.items()]
+                if q["method"] == "forward":
+                    return e.forward_sample(size=q["size"], seed=q["seed"], include_latents=True, show_progress=False, n_jobs=1)
+                if q["method"] == "lw":
+                    return e.likelihood_weighted_sample(evidence=evs, size=q["size"], seed=q["seed"], include_latents=True, show_progress=False, n_jobs=1)
+                return e.rejection_sample(evidence=evs, size=q["size"], seed=q["seed"], include_latents=True, show_progress=False)
             try:
+                if q["t"] in ("calibrate", "max_calibrate"):
+                    getattr(eng, q["t"])()
+                    if _snapshot(model) != snap0:
+                        fail("model_changed")
+                        break
+                    continue
+                if q["t"] == "sample":
+                    got = sample_call(eng)
+                    want = sample_call(BayesianModelSampling(model))
+                    if _snapshot(model) != snap0:
+                        fail("model_changed")
+                        break
+                    cols = sorted(got.columns, key=repr)
+                    same = sorted(want.columns, key=repr) == cols and all(
+                        [repr(x) for x in got[c].tolist()] == [repr(x) for x in want[c].tolist()] for c in cols if c != "_weight") and (
+                        "_weight" not in cols or all(abs(a_ - b_) <= tol for a_, b_ in zip(got["_weight"], want["_weight"])))
+                    if not same:
+                        fail("answer_differs_from_fresh_engine", {"method": q["method"]})
+                        break
+                    continue
                 if q["t"] == "query":
                     # (the caller-owned dictionary itself is handed over, also when it is empty)
                     kw = dict(variables=qv, evidence=evd if (evd or si % 2) else None, show_progress=False)
